@@ -40,6 +40,7 @@ fn main() {
         "C04" => dispatch::<scn::c04_c05_session::C04>(cmd, rest),
         "C05" => dispatch::<scn::c04_c05_session::C05>(cmd, rest),
         "C08" => dispatch::<scn::c08_lossy::C08>(cmd, rest),
+        "C11" => dispatch::<scn::c11_relations::C11>(cmd, rest),
         "C15" => dispatch::<scn::c15_views::C15>(cmd, rest),
         "C18" => dispatch::<scn::c18_codecs::C18>(cmd, rest),
         "C19" => dispatch::<scn::c19_pgp::C19>(cmd, rest),
